@@ -284,7 +284,49 @@ def run(ctx):
              "(the target link may be the item's own Next when both keys share a bucket)", rn.loc(inner[0]))
         r.ob(rn.q, "clear Next after unlink", bool(unl) and bool(clr) and unl[0] < clr[0], "Next is cleared after its old value was used to patch the source chain", rn.loc(inner[0]))
     rules.append(r)
+    rules.append(rule_hash_confirm(ctx, m))
     return rules
+
+
+def rule_hash_confirm(ctx, m):
+    """a match by stored hash must be confirmed by comparing the key: hashes collide (StringUtils::Hash ignores nothing a
+    caller could rely on), so `item->Hash == h` alone identifies a chain, not a key.  Comparisons with 0 are tombstone tests."""
+    r = Rule("HC-confirm", "equality with a stored hash is confirmed by a key comparison in the same condition", floor=1)
+    for f in m.functions:
+        if f.inst or f.file.endswith("QTest.hpp"):
+            continue
+        for i in astq.nodes_of(f, "BinaryOperator"):
+            n = f.nodes[i]
+            if n["op"] not in ("==", "!="):
+                continue
+            sides = [f.nodes[f.strip_casts(c)] for c in n["ch"]]
+            hs = [x for x in sides if x["k"] in ("MemberExpr", "CXXDependentScopeMemberExpr") and x.get("n") == "Hash"]
+            if not hs:
+                continue
+            other = [x for x in sides if x is not hs[0]]
+            if other and other[0]["k"] == "IntegerLiteral" and other[0].get("cv") == 0:
+                continue
+            ctx.note_fn(f)
+            # the enclosing condition: climb through && (for ==) / || (for !=) and parentheses
+            top = i
+            par = f.parents()
+            join = "&&" if n["op"] == "==" else "||"
+            while par.get(top) is not None and (f.nodes[par[top]]["k"] == "ParenExpr" or (f.nodes[par[top]]["k"] == "BinaryOperator" and f.nodes[par[top]]["op"] == join)):
+                top = par[top]
+
+            def key_cmp(root):
+                return [c for c in astq.calls(f, None, root) if (f.call_simple_name(c) or "") in ("IsEqual", "operator==", "operator!=") and
+                        f.call_receiver(c) is not None and f.text(f.call_receiver(c)).endswith("Key")]
+            confirm = key_cmp(top)
+            if n["op"] == "!=" and not confirm:
+                # `Hash != h` alone is a sound pre-filter; it decides a match only through the else branch of its if
+                ifs = [x for x in astq.nodes_of(f, "IfStmt") if f.nodes[x]["cond"] == top or top in set(f.walk(f.nodes[x]["cond"]))]
+                if not ifs or f.nodes[ifs[-1]]["else"] < 0:
+                    continue
+                confirm = key_cmp(f.nodes[ifs[-1]]["else"])
+            r.ob(f.q, f.text(i)[:60], bool(confirm), "condition `%s` %s" % (f.text(top)[:90], "also compares the key" if confirm else
+                 "accepts any key with the same hash: two different keys that collide are treated as one"), f.loc(i))
+    return r
 
 
 def assigns_in(f, root):
